@@ -1284,8 +1284,12 @@ func EncodeRIBlock(blockRangeIndex map[string]*Numbers, blkNum uint16) (uint32, 
 
 	idx += uint32(RI_BLK_LEN_SIZE)
 
-	// 255 for key + 1 (type) + 8 (MinVal) + 8 (MaxVal)
-	riSizeEstimate := (255 + 17) * len(blockRangeIndex)
+	// the header (length, blockNum, CMI type), then per key:
+	// 2 (key length) + the key + 1 (type) + 8 (MinVal) + 8 (MaxVal)
+	riSizeEstimate := int(RI_BLK_LEN_SIZE) + 2 + 1
+	for key := range blockRangeIndex {
+		riSizeEstimate += 2 + len(key) + 17
+	}
 	blkRIBuf := make([]byte, riSizeEstimate)
 
 	// copy the blockNum
